@@ -8,6 +8,7 @@ CONSTANTS
   Wipeouts = TRUE
   Collide = TRUE
   Times = {1}
+  KeepGoing = {FALSE, TRUE}
   Design = "atomic"
 SPECIFICATION Spec
 INVARIANTS EmitCmds
